@@ -645,6 +645,80 @@ pub fn random_program(rng: &mut Rng) -> String {
     text
 }
 
+/// Chains of nested calibrations (depth 2..4 over A -> B -> C -> MEASURE) with leaf instructions
+/// before / between / after the nested calls and, with probability 1/3, a DECLARE at a random level:
+/// exercises deep source-map nesting and `remove_target_index` below the top level.
+pub fn chain_program(rng: &mut Rng) -> String {
+    let depth = rng.range(2, 4);
+    let with_measure = depth == 4 || rng.chance(1, 4);
+    let gate_levels = if depth == 4 { 3 } else { depth.min(3) };
+    let declare_level = if rng.chance(1, 3) { Some(rng.below(gate_levels + with_measure as usize)) } else { None };
+    let var_q = rng.chance(2, 3);
+    let q = if var_q { "q" } else { "0" };
+    let leaf = |rng: &mut Rng| -> String {
+        match rng.below(6) {
+            0 => "NOP".to_string(),
+            1 => format!("FENCE {q}"),
+            2 => format!("DELAY {q} \"f\" 1"),
+            3 => format!("PULSE {q} \"f\" flat(duration: 1, iq: 1)"),
+            4 => format!("SHIFT-PHASE {q} \"f\" 2"),
+            _ => "WAIT".to_string(),
+        }
+    };
+    let mut text = String::from(PRELUDE);
+    for level in 0..gate_levels {
+        let mut body: Vec<String> = Vec::new();
+        for _ in 0..rng.below(3) {
+            body.push(leaf(rng));
+        }
+        if declare_level == Some(level) && rng.chance(1, 2) {
+            body.push("DECLARE mem BIT[1]".to_string());
+        }
+        let last_gate = level + 1 == gate_levels;
+        let ncalls = if last_gate && !with_measure { 0 } else { rng.range(1, 2) };
+        for c in 0..ncalls {
+            if last_gate {
+                body.push(format!("MEASURE {q} ro[{}]", rng.below(2)));
+            } else {
+                body.push(format!("{} {q}", NAMES[level + 1]));
+            }
+            if c + 1 < ncalls {
+                body.push(leaf(rng));
+            }
+        }
+        if declare_level == Some(level) && !body.iter().any(|b| b.starts_with("DECLARE")) {
+            body.push("DECLARE mem BIT[1]".to_string());
+        }
+        for _ in 0..rng.below(3) {
+            body.push(leaf(rng));
+        }
+        if body.is_empty() {
+            body.push(leaf(rng));
+        }
+        text.push_str(&defcal(&format!("{} {q}", NAMES[level]), &body.iter().map(|s| s.as_str()).collect::<Vec<_>>()));
+    }
+    if with_measure {
+        let mut body = vec![format!("CAPTURE {q} \"f\" flat(duration: 1, iq: 1) addr")];
+        if declare_level == Some(gate_levels) {
+            body.insert(rng.below(2), "DECLARE mem2 BIT[1]".to_string());
+        }
+        if rng.chance(1, 2) {
+            body.push(leaf(rng));
+        }
+        text.push_str(&defcal(&format!("MEASURE {q} addr"), &body.iter().map(|s| s.as_str()).collect::<Vec<_>>()));
+    }
+    for _ in 0..rng.range(1, 3) {
+        let line = match rng.below(5) {
+            0 => "NOP".to_string(),
+            1 => format!("{} {}", NAMES[rng.below(gate_levels)], rng.pick(&["0", "1"])),
+            _ => format!("A {}", rng.pick(&["0", "1"])),
+        };
+        text.push_str(&line);
+        text.push('\n');
+    }
+    text
+}
+
 /// The pinned source-map test of quil-rs (program/mod.rs `expand_calibrations`) and a few
 /// hand-written programs exercising each known class.
 pub const CORPUS: [&str; 6] = [
